@@ -224,6 +224,14 @@ def run(chk):
     ok = len(rel) == 1 and any(p and src(e) == "'$NODEID' in var.default_raw" for e, p in fb.facts_at(rel[0]))
     chk.check(ok, "R7", f"{E}:build_variable | relative flag from the raw default", bv.loc(), "")
     calls = node_id_in_force(chk, "R7")
+    # an option that does not convert is skipped alone: no try body may handle two of the optional values, or the failure of the
+    # first (a `$NODEID` default without a node id, an empty DefaultValue) silently drops the second (the ParameterValue)
+    OPTS = ("LowLimit", "HighLimit", "DefaultValue", "ParameterValue", "Factor")
+    for t in [n for n in own_nodes(bv.node) if isinstance(n, ast.Try) and n.handlers]:
+        seen = sorted({a.value for b in t.body for c in ast.walk(b) if isinstance(c, ast.Call) and dotted(c.func) in ("eds.get", "eds.has_option", "eds.getint", "eds.getfloat")
+                       for a in c.args[1:2] if isinstance(a, ast.Constant) and a.value in OPTS})
+        chk.check(len(seen) <= 1, "R7", f"{E}:build_variable | one try per optional value ({', '.join(seen) or '-'})", bv.loc(t),
+                  f"the values {seen} are read inside one try body: when the first does not convert, the ValueError also skips the other(s), which stay unset")
     # ------------------------------------------------------------------ R8 object type dispatch
     consts = {k: folder.try_fold(mod.consts.get(k, ast.Constant(None)), sc, None) for k in ("VAR", "DOMAIN", "ARR", "RECORD")}
     chk.check(consts == {"VAR": 7, "DOMAIN": 2, "ARR": 8, "RECORD": 9}, "R8", f"{E} | object type codes", E, f"{consts}; CiA 306: DOMAIN 2, VAR 7, ARRAY 8, RECORD 9")
